@@ -1021,7 +1021,11 @@ func planC12(prop string, seed uint64, tier string, idx int) *Plan {
 	if idx%5 == 4 {
 		// Close at an arbitrary point with requests in flight (liveness only)
 		g.p.Profile += " (close in flight)"
-		clients = append(clients, []Op{{K: "sleep", Ms: int64(g.r.pick(0, 1, 3, 20))}, {K: "close"}})
+		ms := int64(g.r.pick(0, 1, 3, 20))
+		if f := k.freq(); f > 0 && g.r.chance(50) {
+			ms = f.Milliseconds() * int64(g.r.pick(1, 2, 3)) // Close and a collection tick become due at the same instant
+		}
+		clients = append(clients, []Op{{K: "sleep", Ms: ms}, {K: "close"}})
 	}
 	return coldStart(cg.finishConc(prop, clients), seed)
 }
